@@ -100,7 +100,7 @@ where
     }
 }
 
-fn intersects(
+pub(crate) fn intersects(
     header: &vcf::Header,
     record: &Record,
     reference_sequence_id: usize,
